@@ -496,7 +496,7 @@ func rpcManyUnreceived(c *Ctx, id int) {
 			fail("C18: unreceived block %s appears on %d pages", h8(h), k)
 		}
 	}
-	c.Emit("rpc-unreceived-many %d %d | shown=%d more=%v", total, len(recvd), len(shown), more)
+	c.Emit("#rpc-unreceived-many %d %d shown=%d more=%v", total, len(recvd), len(shown), more)
 	c.Hit(fmt.Sprintf("many-unreceived-more-%v", more))
 	if len(shown) < unreceived && !more {
 		fail("C18: %d sends to the account are unreceived (%d pending, %d received by unconfirmed blocks), the 10 pages show %d of them (count=%d) and More=false: %d unreceived blocks appear on no page and are not announced", unreceived, total, len(recvd), len(shown), count, unreceived-len(shown))
